@@ -191,21 +191,15 @@ pub fn format_stub(args: core::fmt::Arguments<'_>) -> String {
 // tracing stubs (logging gets an empty body; reaching the real callsite registry ICEs kani-compiler)
 #[cfg(feature = "tr")]
 pub mod trstub {
-pub fn tracing_interest_stub<'a>(_c: &'a tracing_core::callsite::DefaultCallsite) -> tracing_core::Interest
-where
-    'a: 'a,
-{
-    tracing_core::Interest::never()
-}
-pub fn tracing_enabled_stub<'a>(_m: &'static tracing_core::Metadata<'static>, _i: tracing_core::Interest) -> bool
-where
-    'a: 'a,
-{
-    false
-}
-pub fn tracing_dispatch_stub<'a>(_m: &'static tracing_core::Metadata<'static>, _f: &'a tracing_core::field::ValueSet<'_>)
-where
-    'a: 'a,
-{
-}
+    pub fn tracing_interest_stub(_c: &tracing_core::callsite::DefaultCallsite) -> tracing_core::Interest {
+        tracing_core::Interest::never()
+    }
+    pub fn tracing_enabled_stub(_m: &'static tracing_core::Metadata<'static>, _i: tracing_core::Interest) -> bool {
+        false
+    }
+    pub fn tracing_dispatch_stub<'a>(_m: &'static tracing_core::Metadata<'static>, _f: &'a tracing_core::field::ValueSet<'_>)
+    where
+        'a: 'a,
+    {
+    }
 }
